@@ -6,7 +6,7 @@ from ..world import all_eq, as_int, lnot, blist, mkstr, mkbytearray
 
 PROPERTY = 'C08'
 BUDGET = {'quick': {'seconds': 1200, 'xreplay_every': 40}, 'thorough': {'seconds': 6000, 'xreplay_every': 400}}
-NONTRIVIAL = {'quick': ['expiry', 'no-expiry', 'second-expiry', 'third-expiry', 'dup-on-repeat', 'v31-dup', 'spacing', 'monotone-gap', 'interleaved']}
+NONTRIVIAL = {'quick': ['buffer-reused', 'resumed', 'resumed-expiry', 'expiry', 'no-expiry', 'second-expiry', 'third-expiry', 'dup-on-repeat', 'v31-dup', 'spacing', 'monotone-gap', 'interleaved']}
 
 REQS = ('pub1', 'pub2', 'pubrel', 'sub', 'unsub')
 TYPE = {'pub1': 'PUBLISH', 'pub2': 'PUBLISH', 'pubrel': 'PUBREL', 'sub': 'SUBSCRIBE', 'unsub': 'UNSUBSCRIBE'}
@@ -46,8 +46,13 @@ def h_retry(eng, params):
         qos = 1 if kind == 'pub1' else 2
         n = params['size']
         payload = [eng.int('pl', 0, 255) for _ in range(min(n, 2))] + [0x55] * max(0, n - 2)
-        tr = w.api(c, 'publish', 'req', mkstr(eng, [0x52]), mkbytearray(eng, payload), qos=qos)
+        buf = mkbytearray(eng, payload)
+        tr = w.api(c, 'publish', 'req', mkstr(eng, [0x52]), buf, qos=qos)
         flow.meta[st] = {'kind': 'publish'}
+        if n and params.get('reuse_buffer', True):
+            # the application reuses its buffer for the next reading: what was published must not change
+            buf[0] = eng.int('reused', 0, 255)
+            eng.count('buffer-reused')
         if kind == 'pubrel':
             flow.rx('PUBREC', msgId=tr.msgId)
     elif kind == 'sub':
@@ -157,7 +162,65 @@ def h_retry(eng, params):
     return flow.finish()
 
 
-HARNESSES = {'retry': h_retry}
+def h_resume(eng, params):
+    """a packet first sent on an earlier connection keeps the spacing configured when it was first sent"""
+    kind = params['req']
+    flow = Flow(eng, 'pubsubs', ver=params['ver'], clean=False, jitter='symbolic')
+    w = flow.w
+    w.env.jitter_pool = []
+    flow.open()
+    c1 = flow.c
+    T = eng.int('timeout', 1, 1024)
+    flow.set_timeout(T)
+    flow.set_window(4)
+    st = w.begin_step('publish')
+    qos = 1 if kind == 'pub1' else 2
+    buf = mkbytearray(eng, [eng.int('pl', 0, 255), 7])
+    tr = w.api(c1, 'publish', 'req', mkstr(eng, [0x52]), buf, qos=qos)
+    flow.meta[st] = {'kind': 'publish'}
+    buf[0] = eng.int('reused', 0, 255)
+    eng.check(tr is not None and not tr.fired, 'request-refused')
+    if tr is None:
+        return None
+    if kind == 'pubrel':
+        flow.rx('PUBREC', msgId=tr.msgId)
+    ptype = TYPE[kind]
+    if eng.choose(2, 'expiry-before-loss'):
+        flow.advance(hi=3000)
+    flow.lose()
+    # the rebuilt protocol starts with the library defaults (or whatever the application sets for NEW requests)
+    flow.open(connack=False, clean=False)
+    c2 = flow.c
+    if eng.choose(2, 'settimeout-on-new-protocol'):
+        flow.set_timeout(eng.int('timeout2', 1, 1024))
+    flow.connack(1)
+    eng.count('resumed')
+    tx2 = transmissions(flow, c2, ptype, tr.msgId)
+    eng.check(len(tx2) == 1, 'not-resumed', '%d %s packets after the persistent CONNACK' % (len(tx2), ptype))
+    for i in range(params['k']):
+        n0 = len(transmissions(flow, c2, ptype, tr.msgId))
+        flow.advance(hi=3000)
+        if len(transmissions(flow, c2, ptype, tr.msgId)) > n0:
+            eng.count('resumed-expiry')
+    tx1 = transmissions(flow, c1, ptype, tr.msgId)
+    tx2 = transmissions(flow, c2, ptype, tr.msgId)
+    first = tx1[0]
+    for i, (st, t, p, raw) in enumerate(tx2):
+        if ptype == 'PUBLISH':
+            eng.check(p['dup'] == 1, 'dup-missing-on-repeat')
+            eng.check(all_eq(p['payload'], first[2]['payload']), 'content-changed', 'a resumed PUBLISH carries a different payload than its first transmission')
+            eng.check(all_eq(p['topic'], first[2]['topic']), 'content-changed')
+        if i > 0:
+            eng.check(t - tx2[i - 1][1] >= T, 'spacing-below-initial-timeout',
+                      'after a resume, two transmissions on one connection are closer together than the initial timeout configured when the packet was first sent',
+                      sig='spacing-below-initial-timeout:resumed:' + kind)
+    from .c13 import is_notification
+    ts = [t for t in w.pending_timers() if not is_notification(w, t)]
+    eng.check(len(ts) == 1, 'single-retry-timer', '%d timers pending' % len(ts), sig='single-retry-timer:resumed:%d' % len(ts))
+    return flow.finish()
+
+
+HARNESSES = {'retry': h_retry, 'resume': h_resume}
 
 
 def shards(tier):
@@ -172,6 +235,8 @@ def shards(tier):
                         if unrelated and (size != 2 or factor != 2):
                             continue
                         out.append(('retry', {'ver': ver, 'req': req, 'size': size, 'factor': factor, 'k': 6 if T else 4, 'unrelated': unrelated}))
+        for req in ('pub1', 'pub2', 'pubrel'):
+            out.append(('resume', {'ver': ver, 'req': req, 'k': 3 if T else 2}))
     return out
 
 
@@ -179,7 +244,7 @@ META = {
     'rule': 'one retransmittable request of each kind, setTimeout(T symbolic 1..1024), setBandwith(B symbolic real, factor), k advances by symbolic amounts '
             'with fresh symbolic jitter in [0,1) per retry and optionally one unrelated event; every comparison between time stamps, due times, T, B and jitter is '
             'a validity query; non-trivial = expiries (first, second, third), non-expiries, DUP, spacing and back-off obligations',
-    'bounds': {'quick': 'both protocol versions x {PUBLISH QoS1, PUBLISH QoS2, PUBREL, SUBSCRIBE, UNSUBSCRIBE}; payload 0, 2, 200 bytes; factor 2, 1, 3; k=4 advances of '
+    'bounds': {'quick': '(resume) PUBLISH QoS1/QoS2/PUBREL first sent with setTimeout(T symbolic), optional expiry, persistent loss, rebuilt protocol with optional setTimeout(T2 symbolic), CONNACK, k=2 advances of 0..3000 s; the application overwrites its payload buffer after publish(); (retry) both protocol versions x {PUBLISH QoS1, PUBLISH QoS2, PUBREL, SUBSCRIBE, UNSUBSCRIBE}; payload 0, 2, 200 bytes; factor 2, 1, 3; k=4 advances of '
                         '0..5000 s; B in [0.001, 1e7]', 'thorough': 'k=6'},
     'stubs': ['fake transport', 'twisted task.Clock with exact real arithmetic', 'random.random() -> fresh symbolic real in [0,1)'],
     'outside': ['back-off factor < 1', 'float rounding', 'more than one retransmittable request at a time (C13 covers timer ownership with several)',
